@@ -176,7 +176,7 @@ def save_cached_table(rule_name, children, mixed, table):
     json.dump({"digest": _digest(rule_name, children, mixed), "table": ser}, open(os.path.join(CACHE_DIR, rule_name + ".json"), "w"))
 
 
-def task(rule_name, tier="quick", max_rounds=6):
+def task(rule_name, tier="quick", max_rounds=6, only=None):
     """inference (candidate tables) + the deciding check of the final tables, both modes"""
     from contracts.rules_common import load_rules
     from contracts.c01_children import Spec
@@ -195,9 +195,13 @@ def task(rule_name, tier="quick", max_rounds=6):
     while True:
         rounds += 1
         final = rounds >= max_rounds
-        results = [verify(spec, table, False, 10000 if final else 3000, None if final else 6)]
-        if all(o.status == "proved" for o in results[0].obs) or final:
-            results.append(verify(spec, table, True, 10000 if final else 3000, None if final else 6))
+        if only is not None and from_cache:
+            # candidates come from the cache: the two modes are independent checks and run as separate pool tasks
+            results = [verify(spec, table, only == "collecting")]
+        else:
+            results = [verify(spec, table, False, 10000 if final else 3000, None if final else 6)]
+            if all(o.status == "proved" for o in results[0].obs) or final:
+                results.append(verify(spec, table, True, 10000 if final else 3000, None if final else 6))
         bad = [o for r in results for o in r.obs if o.status != "proved"]
         if os.environ.get("C01_DEBUG"):
             print(f"[{rule_name}] round {rounds}: table={sum(len(v) for v in table.values())} " + " ".join(f"{r.name.split('[')[1]} paths={r.paths} obs={len(r.obs)} bad={sum(1 for o in r.obs if o.status!='proved')} {r.wall:.1f}s" for r in results), flush=True)
@@ -210,9 +214,12 @@ def task(rule_name, tier="quick", max_rounds=6):
             break
         if from_cache:
             # the cached candidates no longer verify (the code or the rule changed): re-infer from scratch, within a budget
+            if only == "collecting":
+                return []       # the fail-fast task of this rule does the re-inference and then checks both modes
             from_cache = False
             table = {}
-            explore(tracer, spec, table, max_words=60000)
+            explore(tracer, spec, table, max_words=4000 if tier == "quick" else 60000)
+            max_rounds = rounds + 1
             continue
         new_words = set()
         for r in results:
@@ -352,7 +359,13 @@ def main(tier, seed):
     rules = load_rules()
     # big rules first so that the pool is balanced
     order = sorted(rules, key=lambda r: -len(json.dumps(rules[r][1])))
-    specs = [("props.C01", "task", {"rule_name": r, "tier": tier}) for r in order]
+    specs = []
+    for r in order:
+        if load_cached_table(r, rules[r][1], r in MIXED) is not None:
+            specs.append(("props.C01", "task", {"rule_name": r, "tier": tier, "only": "fail-fast"}))
+            specs.append(("props.C01", "task", {"rule_name": r, "tier": tier, "only": "collecting"}))
+        else:
+            specs.append(("props.C01", "task", {"rule_name": r, "tier": tier}))
     specs.append(("props.C01", "task_metadata", {}))
     results = common.run_tasks(specs, procs=16)
     b = bounded(tier, seed)
